@@ -164,8 +164,8 @@ impl FixtureDatabase {
 @closure 3 |path_u: &(PathBuf, FixtureUsage)| -> (b: bool) ensures b == (pbv(&path_u.0) != pbv(file_path))
 @closurelet 3 let (path, _) = path_u;
 @closure 4 |_k: &String, usages: &Vec<(PathBuf, FixtureUsage)>| -> (b: bool) ensures b == (usages@.len() == 0)
-@replace 1 `path == file_path` => `*path == *file_path`
-@replace 1 `path != file_path` => `*path != *file_path`
+@derefcmp path file_path 1
+@derefcmp path file_path 2
 @after all_keys 1
     let ghost b0 = self.usage_by_fixture.m();
     let ghost mut pset: Set<Seq<char>> = Set::empty();
